@@ -29,6 +29,7 @@ BOUND = ("real StandardCombi with TrapezoidalGrid + Integration; d in {1,2,3}; 1
          "the same instance twice (second perform_operation / __call__ / get_points_and_weights, stability of the reported result array); kind "
          "'after-coefficient-update' (quick 7, thorough all (d,lmin,lmax)): two CombiScheme and two StandardCombi of the same (dim,lmin,lmax) are created "
          "first, object sharing is checked, their coefficients are overwritten in place, then a fresh instance runs every clause")
+BOUND += "; fault / magnitude additions: an extra function component that is +inf on the box boundary when the grids carry no boundary points"
 RULE = BOUND + ("; one case = (d, lmin, lmax, box, boundary); non-trivial = the scheme has >= 2 component grids (d>=2 and lmin<lmax); tolerances: interpolated "
                 "values abs 1e-10 (values in [0,1]), integrals rel 1e-10, coefficient sums exact")
 BUDGET = {"quick": 60.0, "thorough": 800.0}
